@@ -79,7 +79,8 @@ def rule_push_guards(ctx, R):
                         okv = ret[4][0][1] == ("arg", 2)
                         R.check(okv, "C04-R4", key + "|err-returns-argument", "refused creation hands back its argument untouched",
                                 "Err carries %s; expected the data argument itself" % show(ret[4][0][1]), where_of(f), fn=f.key)
-                        others = [e for e in p.effects if e[0] == "call" and e[6] == f.key and not e[7]]
+                        others = [e for e in p.effects if e[0] == "call" and e[6] == f.key and not e[7]
+                                  and not (cname(e[2]).endswith(("Into::into", "Into<U>>::into", "From::from")) and len(e[3]) == 1 and N(e[3][0]) == ("arg", 2))]
                         R.check(not others, "C04-R4", key + "|err-path-effect-free", "no call on the refusing path",
                                 "refusing path calls %s before returning the argument" % [cname(e[2]) for e in others], where_of(f), fn=f.key)
                         stores = [e for e in p.effects if e[0] == "store"]
@@ -320,6 +321,17 @@ def rule_dropper(ctx, R):
             ok = is_call(a, "add") and loop_item(a[2][1]) is not None and strip_epochs(loop_item(a[2][1])) == strip_epochs(rng)
     R.check(ok, "C04-R3", "DataPtr::drop_to|loop", "drop_in_place(base+i) once per i in 0..len",
             "DataPtr::drop_to must drop cell i exactly once for each i in Range(0, len)", where_of(fn), fn=fn.key)
+    # the only way out is exhaustion of that loop: an early return (e.g. for zero-sized T, which still has drop glue)
+    # would leave cells undropped; `len == 0` is the one benign early-out
+    for pi, p in enumerate(ps or ()):
+        if p.end != "return":
+            continue
+        entered = any(e[0] == "loop" for e in p.effects)
+        pre = [a for a in branch_atoms(p) if not contains(a[0][-1] if a[0][0] != "cmp" else ("agg", "tuple", None, None, (("0", a[0][2]), ("1", a[0][3]))), lambda x: is_call(x, "next"))]
+        benign = (not entered) and len(pre) == 1 and pre[0][0] == ("cmp", "Eq", ("arg", 2), ("const", 0)) and pre[0][1] is True
+        guards = pre
+        R.check((entered and not guards) or benign, "C04-R3", "DataPtr::drop_to|no-early-exit#%d" % pi, "returns only after the drop loop is exhausted",
+                "DataPtr::drop_to returns under %s %s: cells [0,len) are left undropped on that path (note: zero-sized values still have drop glue)" % (describe_atoms(pre), "without entering the drop loop" if not entered else "after guarding the loop"), where_of(fn), fn=fn.key)
     # from the unwind edge of drop_in_place no further drop_in_place is reachable
     bad = []
     for bi, b in enumerate(fn.blocks):
